@@ -34,6 +34,11 @@ Definition p_wop (t : text) : option wop :=
               else if text_eqb t (T "X") then Some WExit else None
   | [] => None
   end.
+Definition p_wop2 (t : text) : option wop2 :=
+  match t with
+  | c :: r => if Byte.eqb c "T"%byte then option_map W2Touch (p_nat r) else option_map W2Op (p_wop t)
+  | [] => None
+  end.
 Definition pr_rend (x : list bytes * rend) : text :=
   pr_list pr_bytes_e (fst x) ++ T "|" ++
   match snd x with End => T "END" | ErrData n ctx => T "ERR:" ++ pr_nat n ++ T ":" ++ pr_bytes ctx end.
@@ -55,6 +60,9 @@ Definition run_framing (op : text) (args : list text) : option text :=
   else if text_eqb op (T "vbs_write") then
     match args with [b; ops] => Some (opt (p_bool b) (fun b => opt (p_list p_wop ops) (fun ops =>
         T "OK " ++ pr_bytes (file_of (writer_run BSZ b ops))))) | _ => Some bad_input end
+  else if text_eqb op (T "vbs_write2") then
+    match args with [b; ops] => Some (opt (p_bool b) (fun b => opt (p_list p_wop2 ops) (fun ops =>
+        T "OK " ++ pr_bytes (file_of (writer_run2 BSZ b ops))))) | _ => Some bad_input end
   else if text_eqb op (T "vbs_l2b") then
     match args with [b; rs] => Some (opt (p_bool b) (fun b => opt (p_list p_bytes_e rs) (fun rs =>
         T "OK " ++ pr_bytes (vbs_list_to_bytes BSZ b rs)))) | _ => Some bad_input end
